@@ -168,6 +168,13 @@ def gen_case(seed):
     sc["script"].sort(key=lambda o: o["t"])
     sc["horizon"] = 400.0
     sc["mode"] = mode
+    r11 = random.Random("c09-idle0/%s" % seed)
+    if r11.random() < 0.05 and "advertise_client" not in sc["opts"] and "advertise_server" not in sc["opts"]:
+        # an endpoint configured with idle_timeout = 0 ("no idle timeout of mine", which is also what it then advertises):
+        # whatever it makes of that, a live connection still names a finite deadline and a silent peer is given up on
+        for side in r11.choice([["client"], ["server"], ["client", "server"]]):
+            sc["opts"]["idle_" + side] = 0.0
+        sc["mode"] = str(sc.get("mode", "")) + "+local-idle-timeout-zero"
     return sc
 
 
